@@ -231,7 +231,9 @@ def rfp(o):
             for name in o.colnames:
                 col = o[name]
                 h.update(name.encode() + str(col.dtype).encode() + str(getattr(col, 'unit', None)).encode())
+                h.update(repr((getattr(col, 'description', None), getattr(col, 'format', None), sorted(getattr(col, 'meta', {}) or {}))).encode())
                 h.update(np.ascontiguousarray(np.asarray(col)).tobytes() if np.asarray(col).dtype != object else repr(list(col)).encode())
+            h.update(repr(sorted((k, repr(v)) for k, v in (o.meta or {}).items())).encode())
             return 'table:' + h.hexdigest()
         import matplotlib.artist as mart
         if isinstance(o, mart.Artist):
@@ -348,10 +350,15 @@ def do_op(pool, op):
                     pool.texts[fmt] = res
                 return name, res
             if name == 'write':
-                path = os.path.join(pool.workdir, f'w{op["k"]}.' + {'ds9': 'reg', 'crtf': 'crtf', 'fits': 'fits'}[fmt])
+                # a handful of destinations, so that later writes meet files left by earlier ones
+                path = os.path.join(pool.workdir, f'w{op["k"] % 3}.' + {'ds9': 'reg', 'crtf': 'crtf', 'fits': 'fits'}[fmt])
+                was = open(path, 'rb').read() if os.path.exists(path) else None
                 try:
                     target.write(path, format=fmt, overwrite=True, **kw)
                 except Exception as e:
+                    now = open(path, 'rb').read() if os.path.exists(path) else None
+                    if now != was:
+                        return name, RuntimeError('FAILED-WRITE-TOUCHED-DESTINATION')
                     return name, e
                 pool.files[fmt] = path
                 return name, open(path, 'rb').read() if fmt != 'fits' else os.path.getsize(path)
@@ -364,6 +371,13 @@ def do_op(pool, op):
                         return name, e
                 else:
                     data = DOCS[fmt]
+                if fmt == 'fits' and op['k'] % 4 < 2 and len(data):
+                    # a table as a user (or another program) would hand it over: shape names in upper / mixed case, described columns
+                    from astropy.table import Column
+                    names = [str(v).upper() if i % 2 else str(v).capitalize() for i, v in enumerate(data['SHAPE'])]
+                    data.replace_column('SHAPE', Column(names, name='SHAPE', description='shape of the region'))
+                    data['X'].description = 'x positions'
+                    data.meta['ORIGIN'] = 'user'
                 try:
                     tfp = rfp(data) if fmt == 'fits' else None
                     out = Regions.parse(data, format=fmt).regions
@@ -449,6 +463,8 @@ def run_case(case, obs):
             obs.count('op:' + fam)
             if isinstance(res, RuntimeError) and str(res) == 'INPUT-TABLE-MUTATED':
                 obs.violation('input-mutated:parse', f'operation {op}: Regions.parse changed the FITS table it was given')
+            if isinstance(res, RuntimeError) and str(res) == 'FAILED-WRITE-TOUCHED-DESTINATION':
+                obs.violation('failed-write-leaves-trace', f'operation {op}: a write that raised created / changed the destination file (later calls see it)')
             after = pool.fingerprints()
             changed = [k for k in before if before[k] != after[k]]
             if changed:
